@@ -245,6 +245,30 @@ def _zw_row(ref):
     return bool(rows) and any(r.cells and all(w == 0 for (_i, _x, w) in r.cells) for r in rows)
 
 
+def _zw_at(ref):
+    """classification aid only (never used by an oracle): which of {the cursor, the start of the edit
+    text} lie on a display row that consists of zero-width characters only -> set of 'cursor' / 'text-start'.
+    (urwid's layout has no segment for such characters, so every offset on such a row is mapped to the
+    closest offset of a neighbouring row: known finding C10-KF1.)"""
+    rows = ref.rows()
+    out = set()
+    if not rows:
+        return out
+    ncap = len(ref.caption)
+    for r in rows:
+        if r.cells and all(w == 0 for (_i, _x, w) in r.cells):
+            on_row = {ref.from_disp(d) for (d, _x) in r.positions() if d >= ncap}
+            if ref.pos in on_row:
+                out.add("cursor")
+            if 0 in on_row:
+                out.add("text-start")
+    return out
+
+
+def _zw_obs0(ref):
+    return sorted({"cursor-before", "cursor-after"} if "cursor" in _zw_at(ref) else set()) + (["text-start"] if "text-start" in _zw_at(ref) else [])
+
+
 def apply_and_check(w, ref, cfg, ev, log):
     """Apply one event to the real widget and to the reference; evaluate every clause.
     Returns (verdicts: {clause: (ok, why, nontrivial)}, alive: bool, obs: dict)."""
@@ -252,12 +276,13 @@ def apply_and_check(w, ref, cfg, ev, log):
     v = {}
     before_text, before_pos = w.edit_text, w.edit_pos
     ref_before = (ref.value(), ref.offset(), ref.prefs)
+    zw_before = _zw_at(ref)
     del log[:]
     try:
         ret = do_event(w, size, ev)
     except Exception as e:  # noqa: BLE001
         v["no-exception"] = (False, f"raised {type(e).__name__}: {e}"[:300], True)
-        return v, False, {"before": [repr(before_text), before_pos]}
+        return v, False, {"before": [repr(before_text), before_pos], "zero_width_at": sorted(f"{x}-before" for x in zw_before)}
     events = list(log)
     after_text, after_pos = w.edit_text, w.edit_pos
     obs = {"before": [repr(before_text), before_pos], "after": [repr(after_text), after_pos], "returned": repr(ret), "signals": repr([(e[0], e[1]) for e in events])}
@@ -379,6 +404,8 @@ def apply_and_check(w, ref, cfg, ev, log):
         v["no-exception"] = (True, "", True)
     obs["ref_before"] = [repr(ref_before[0]), ref_before[1], repr(ref_before[2])]
     obs["zero_width_row"] = _zw_row(ref)
+    zw_after = _zw_at(ref)
+    obs["zero_width_at"] = sorted({"cursor-before" for x in zw_before if x == "cursor"} | {"cursor-after" for x in zw_after if x == "cursor"} | {"text-start" for x in zw_before | zw_after if x == "text-start"})
     return v, alive, obs
 
 
@@ -427,8 +454,8 @@ def evaluate(cfg, text0, pos0, path, ev, ref=None):
             v["no-exception"] = (True, "", True)
         except Exception as e:  # noqa: BLE001
             v["no-exception"] = (False, f"render/cursor query raised {type(e).__name__}: {e}"[:300], True)
-            return v, False, {"zero_width_row": _zw_row(ref)}, ref
-        return v, True, {"zero_width_row": _zw_row(ref)}, ref
+            return v, False, {"zero_width_row": _zw_row(ref), "zero_width_at": _zw_obs0(ref)}, ref
+        return v, True, {"zero_width_row": _zw_row(ref), "zero_width_at": _zw_obs0(ref)}, ref
     v, alive, obs = apply_and_check(w, ref, cfg, ev, log)
     return v, alive, obs, ref
 
